@@ -2,7 +2,7 @@ import TakVerif.Impl.FPATotal
 import TakVerif.Impl.BotCompose
 import TakVerif.Proofs.Glue
 
-/-! Lemmas about the declining scripts (`Impl/FPATotal.lean`, `fixes/C07-fpa-script-decline.diff`):
+/-! Lemmas about the declining scripts (`Impl/FPATotal.lean`, `fixes/C07-fpa-script-declines.diff`):
 the scripts never panic (`getMoveD_total`), answer what the scripts with their panics answered wherever those answered
 (`getMoveD_of_ok`: every C20 theorem about an opening played by the rule carries over), and `Friendly.GetMove` with them
 (`friendlyGetMoveD`) differs from the call before the patch exactly where a script panicked: there it asks the searching
